@@ -1,6 +1,9 @@
 import Driver.Enc
+import Driver.Prim
 
 def main (args : List String) : IO UInt32 := do
   match args with
   | ["enc"] => Driver.Enc.main; return 0
-  | _ => IO.eprintln "usage: driver <enc>"; return 2
+  | ["prim"] => Driver.lineLoop Driver.Prim.step (); return 0
+  | ["wt"] => Driver.lineLoop Driver.Prim.wtStep (); return 0
+  | _ => IO.eprintln "usage: driver <enc|prim|wt>"; return 2
